@@ -483,6 +483,9 @@ struct Engine
             if (P.obstacle_gz)
                 n += ".gz"; // ... or of its compressed form: the rename works, the compression cannot be created
             mkdir((logdir_path + "/" + n).c_str(), 0700);
+            // by the virtual clock, like everything else in the directory (a real time stamp would be the only
+            // real clock value a library that looks at the obstacle could ever see)
+            sim::fs_stamp((logdir_path + "/" + n).c_str(), sim::wall_now() - 3600 * sim::SEC);
         }
         name_sibling();
         for (int idx : P.foreign) {
